@@ -130,7 +130,7 @@ func (g *GroupWorld) makeNode(i *Inst, created time.Time) *v1.Node {
 	created = created.Add(g.w.cfg.CreationSkew).Truncate(time.Second)
 	n := &v1.Node{
 		ObjectMeta: metav1.ObjectMeta{
-			Name: g.nodeNameFor(i), UID: types.UID("uid-" + i.ID), CreationTimestamp: metav1.NewTime(created),
+			Name: g.nodeNameFor(i), UID: types.UID(fmt.Sprintf("uid-%x-%d-%s", g.w.ch.Seed, g.w.execID, i.ID)), CreationTimestamp: metav1.NewTime(created),
 			Labels: map[string]string{g.cfg.LabelKey: g.cfg.LabelValue, "kubernetes.io/hostname": g.nodeNameFor(i)},
 		},
 		Spec: v1.NodeSpec{ProviderID: g.w.aws.providerID(i)},
@@ -208,6 +208,9 @@ func (g *GroupWorld) groupPods() []*v1.Pod {
 	for _, n := range g.w.kube.sortedPodNames() {
 		if g.w.kube.podOwner[n] != g.name {
 			continue
+		}
+		if ph := g.w.kube.pods[n].Status.Phase; ph == v1.PodSucceeded || ph == v1.PodFailed {
+			continue // finished: uses nothing, waits for garbage collection
 		}
 		out = append(out, g.w.kube.pods[n])
 	}
@@ -328,7 +331,7 @@ func (g *GroupWorld) selectorFor(p *v1.Pod, s *Stream) {
 func (g *GroupWorld) spawnPod(s *Stream, edge bool) *v1.Pod {
 	g.podSeq++
 	p := &v1.Pod{ObjectMeta: metav1.ObjectMeta{Name: fmt.Sprintf("p-%d-%05d", g.cfg.Idx, g.podSeq), Namespace: "default"}, Status: v1.PodStatus{Phase: v1.PodPending}}
-	p.UID = types.UID("uid-" + p.Name)
+	p.UID = types.UID(fmt.Sprintf("uid-%x-%d-%s", g.w.ch.Seed, g.w.execID, p.Name))
 	g.selectorFor(p, s)
 	switch s.Pick(6, 2, 2) {
 	case 1:
@@ -535,9 +538,13 @@ func (g *GroupWorld) schedule() {
 			dur, _ := time.ParseDuration(p.Annotations["sim/duration"])
 			name := p.Name
 			w.after(dur, "pod-done", func() {
-				if _, ok := w.kube.pods[name]; ok {
-					w.kube.deletePod(name)
+				if cur, ok := w.kube.pods[name]; ok {
+					// completed pods stay in the API for a while in a terminal phase (excluded by the informer's selector)
+					done := cur.DeepCopy()
+					done.Status.Phase = []v1.PodPhase{v1.PodSucceeded, v1.PodFailed}[len(name)%2]
+					w.kube.putPod(done, "")
 					w.stats.World["pod-completed"]++
+					w.after(3*w.cfg.ScanInterval, "pod-gc", func() { w.kube.deletePod(name) })
 				}
 			})
 			break
@@ -746,7 +753,7 @@ func (g *GroupWorld) pickNode(s *Stream, prefer string) *v1.Node {
 	return nodes[s.Intn(len(nodes))]
 }
 
-var extTaintValues = []string{"", "0", "-5", "abc", "99999999999999999999", "9223372036854775807", "1e9", "946684800.5", " 946684800", "0x10", "0b1010", "0o17", "946_684_700", "0946684700", "+946684700", "0x386D4380"}
+var extTaintValues = []string{"", "0", "abc", "99999999999999999999", "9223372036854775807", "1e9", "946684800.5", "0x10", "0b1010", "0o17", "946_684_700", "0946684700", "0x386D4380"}
 
 func (g *GroupWorld) operatorAction(s *Stream, prefer string) {
 	w := g.w
